@@ -42,14 +42,22 @@ PROPS = {
     "C09": dict(theorems=["C09_engine_computes_semantics"], cone=ENGINE_CONE, rule=ENGINE_RULE,
                 families=[eng("engine", "C09", 1000, 16000, ["repeat", "repeat_ptgate", "panic"])]),
     "C10": dict(theorems=["C10_engine_computes_semantics"], cone=ENGINE_CONE, rule=ENGINE_RULE,
-                families=[eng("engine", "C10", 1200, 20000, ["issues", "first", "panic"])]),
+                families=[eng("engine", "C10", 1200, 20000, ["issues", "first", "panic"]),
+                          dict(name="fe", family="fe", profile="fe", quick=700, thorough=8000, tags=["issues", "first", "panic", "nested_source_tag"])]),
     "C12": dict(theorems=["C12_engine_computes_semantics"], cone=ENGINE_CONE, rule=ENGINE_RULE,
                 families=[eng("engine", "C12", 1200, 20000, ["calls", "args", "ctx", "haserr", "panic"])]),
+    "C14": dict(theorems=["C14_struct_sources_agree", "C14_engine_computes_semantics", "C14_provider_key", "C14_factory_transparent_struct",
+                          "C14_factory_transparent_ptr", "C14_nested_source_tag_refuted", "C14_nested_flat_source_refuted"],
+                cone=ENGINE_CONE + ["Proofs/FrontEndsP.v"],
+                rule="one generated logical record (JSON-expressible) for a generated struct schema (tags json/form/query/env/zog) is sent through zjson, zhttp JSON/form/query requests (methods, charset parameters, decoy query/body values, malformed bodies, middleware pre-parsing) or the environment; model input = what encoding/json, url.ParseQuery or TrimSpace yield when called directly; plus a model-free cross-front-end oracle against the same record as a Go map; distinct = distinct (front end, schema shape, issue codes)",
+                families=[dict(name="fe", family="fe", profile="fe", quick=1500, thorough=20000,
+                               tags=["nil", "issues", "dest", "panic", "fe_equiv", "fe_nested_flat", "nested_source_tag", "nested_flat_source"])]),
     "C15": dict(theorems=["C15_get_head_query", "C15_other_methods", "C15_json_iff", "C15_form_iff", "C15_params_ignored", "C15_decode_failure_struct",
                           "C15_decode_failure_ptr", "C15_empty_object", "C15_url_missing", "C15_url_single", "C15_url_repeated", "C15_url_brackets"],
                 cone=["Model/Http.v", "Proofs/HttpP.v", "Model/Engine.v"],
                 rule="method x Content-Type grid (standard, unknown and lower-case methods; parameters, empty, malformed and random media types) with the dispatch observed through recording Config.Parsers; query strings x keys for urlDataProvider.Get; non-trivial = a non-GET/HEAD request or a present/repeated parameter; distinct = distinct (method, content type) or (query, key)",
-                families=[sat("http", "http", 1200, 12000, ["dispatch", "urlget", "dispatch_rfc", "dispatch_media"])]),
+                families=[sat("http", "http", 1200, 12000, ["dispatch", "urlget", "dispatch_rfc", "dispatch_media"]),
+                          dict(name="fe", family="fe", profile="fe", quick=900, thorough=12000, tags=["nil", "issues", "dest", "calls", "panic"])]),
     "C18": dict(theorems=["C18_float_to_int_exact", "C18_nan_inf_rejected", "C18_float_out_of_range_rejected", "C18_int_from_int_exact", "C18_int_in_range",
                           "C18_int32_in_range", "C18_int32_accepts", "C18_int32_rejects", "C18_int64_accepts", "C18_f64_identity",
                           "C18_f32_rounds_never_to_infinity", "C18_f32_overflow_rejected"],
